@@ -52,23 +52,23 @@ var caselessRunes = []rune{
 // ill-formed byte sequences
 var invalidSeqs = [][]byte{
 	{0x80}, {0xBF}, {0xFF}, {0xFE}, {0xC0}, {0xC1}, {0xF5},
-	{0xC2},             // truncated 2
-	{0xE4, 0xB8},       // truncated 3
-	{0xE2, 0x84},       // truncated Kelvin
-	{0xF0, 0x9F, 0x98}, // truncated 4
-	{0xC0, 0x80},       // overlong
-	{0xE0, 0x80, 0x80}, // overlong 3
-	{0xED, 0xA0, 0x80}, // surrogate
+	{0xC2},                   // truncated 2
+	{0xE4, 0xB8},             // truncated 3
+	{0xE2, 0x84},             // truncated Kelvin
+	{0xF0, 0x9F, 0x98},       // truncated 4
+	{0xC0, 0x80},             // overlong
+	{0xE0, 0x80, 0x80},       // overlong 3
+	{0xED, 0xA0, 0x80},       // surrogate
 	{0xF4, 0x90, 0x80, 0x80}, // > U+10FFFF
-	{0xAA}, {0x84}, // stray continuation bytes of Kelvin
+	{0xAA}, {0x84},           // stray continuation bytes of Kelvin
 }
 
 // G is a generator context.
 type G struct {
-	R       *rand.Rand
-	Valid   bool // only well-formed UTF-8
-	Scale   int  // 1 = quick, larger = thorough
-	atomsV  [][]byte
+	R        *rand.Rand
+	Valid    bool // only well-formed UTF-8
+	Scale    int  // 1 = quick, larger = thorough
+	atomsV   [][]byte
 	atomsAll [][]byte
 }
 
